@@ -159,6 +159,35 @@ func (r *Report) finish(cfg *solverCfg) int {
 	if len(r.prog.overlaid) > 0 {
 		assumptions = append(assumptions, "contract files missing from /repo were overlaid from /verif/contracts-mirror: "+strings.Join(r.prog.overlaid, ", "))
 	}
+	// preconditions of the verified functions: the inputs outside them are not covered
+	var preconds []string
+	seenPre := map[string]bool{}
+	for _, fr := range r.frs {
+		if fr.Spec == nil {
+			continue
+		}
+		for _, rq := range fr.Spec.Requires {
+			line := fr.Spec.Ref + ": requires " + rq.Src
+			if !seenPre[line] {
+				seenPre[line] = true
+				preconds = append(preconds, line)
+			}
+		}
+		for _, cs := range fr.Spec.Cases {
+			line := fr.Spec.Ref + ": case " + cs.Label + ": " + cs.Src
+			if !seenPre[line] {
+				seenPre[line] = true
+				preconds = append(preconds, line)
+			}
+		}
+		if fr.Spec.Unroll > 0 {
+			line := fmt.Sprintf("%s: loops of inlined callees unrolled %d times (complete: %v)", fr.Spec.Ref, fr.Spec.Unroll, fr.Spec.UnrollComplete)
+			if !seenPre[line] {
+				seenPre[line] = true
+				preconds = append(preconds, line)
+			}
+		}
+	}
 	level := "proof"
 	var bounds []string
 	for b := range boundSet {
@@ -194,6 +223,7 @@ func (r *Report) finish(cfg *solverCfg) int {
 			"load_s":                    round3(r.tLoad),
 			"vcgen_s":                   round3(r.tGen),
 			"functions_under_contract":  fns,
+			"preconditions_assumed":     preconds,
 			"inlined_callees":           inl,
 			"trusted_contracts":         trusted,
 			"known_findings":            kfLines,
